@@ -519,7 +519,11 @@ func universeTypes() []typeSpec {
 	dt := []string{"0000-00-00 00:00:00", "0000-00-00 00:00:00.000", "0000-00-00 00:00:00.000000", "1000-01-01 00:00:00",
 		"9999-12-31 23:59:59", "9999-12-31 23:59:59.999999", "2021-03-04 05:06:07", "2021-03-04 05:06:07.123",
 		"2021-03-04 05:06:07.000001", "2021-03-04 05:06:07.000", "2021-03-04 05:06:07.100000", "2021-00-00 00:00:00",
-		"1970-01-01 00:00:01", "2038-01-19 03:14:07", "0001-01-01 00:00:00", "2020-02-29 12:00:00"}
+		"1970-01-01 00:00:01", "2038-01-19 03:14:07", "0001-01-01 00:00:00", "2020-02-29 12:00:00",
+		// midnight with and without a fraction (added after seeded change c13-2 was missed: a
+		// "time part is zero" test that forgets the fractional seconds)
+		"2024-12-23 00:00:00", "2024-12-23 00:00:00.250000", "2024-12-23 00:00:00.000001", "2024-12-23 00:00:00.5",
+		"2024-12-23 00:00:01", "2024-12-23 00:01:00", "2024-12-23 01:00:00"}
 	ts := []typeSpec{
 		{t: bp.TTiny, signed: []string{"-128", "-1", "0", "1", "127"}, unsigned: []string{"0", "1", "127", "128", "255"}, reps: []string{"-1", "127"}},
 		{t: bp.TShort, signed: []string{"-32768", "-1", "0", "1", "32767"}, unsigned: []string{"0", "1", "32767", "32768", "65535"}, reps: []string{"-32768"}},
